@@ -355,8 +355,14 @@ func (s *State) EvalOptions(parsed *hclparse.Parser, v any, opts *EvalOptions) e
 	if ctx.Variables == nil {
 		ctx.Variables = make(map[string]cty.Value)
 	}
-	for name, file := range files {
+	// Evaluate the files in a fixed order (by name), so that the
+	// result does not depend on the iteration order of the map.
+	for name := range files {
 		fileNames = append(fileNames, name)
+	}
+	sort.Strings(fileNames)
+	for _, name := range fileNames {
+		file := files[name]
 		if err := s.setInputVals(ctx, file.Body, opts.Variables); err != nil {
 			return err
 		}
@@ -389,8 +395,8 @@ func (s *State) EvalOptions(parsed *hclparse.Parser, v any, opts *EvalOptions) e
 	// Semi-evaluate blocks with the for_each meta argument.
 	if len(metaBlocks) > 0 {
 		blocks := make([]*hclsyntax.Block, 0, len(metaBlocks))
-		for name, bs := range metaBlocks {
-			for _, b := range bs {
+		for _, name := range fileNames {
+			for _, b := range metaBlocks[name] {
 				nb, err := s.forEachBlocks(ctx, b)
 				if err != nil {
 					return err
@@ -420,9 +426,6 @@ func (s *State) EvalOptions(parsed *hclparse.Parser, v any, opts *EvalOptions) e
 		}
 	}
 	spec := &Resource{}
-	sort.Slice(fileNames, func(i, j int) bool {
-		return fileNames[i] < fileNames[j]
-	})
 	var vr SchemaValidator
 	switch {
 	case opts.Validator != nil:
